@@ -399,7 +399,7 @@ class SyntheticEko:
         from eko.io.struct import EKO
         from ekobox.cards import example
 
-        self.root = pathlib.Path(tempfile.mkdtemp(prefix="eko-verif-synth-"))
+        self.root = pathlib.Path(tempfile.mkdtemp(prefix="verif-eko-synth-"))
         self._oldtmp = tempfile.tempdir
         (self.root / "tmp").mkdir()
         tempfile.tempdir = str(self.root / "tmp")
